@@ -571,7 +571,20 @@ class ContainerModel:
         self.ql = QueueStates(maxlen) if dual else None
 
     def sorted_ids(self):
-        return sorted(self.items, key=lambda i: self.items[i]["x"])
+        # list order: a hinted insertion goes immediately to the left of its hint, a hint-less one in front of the first
+        # item with a greater coordinate (so items with EQUAL coordinates keep a definite, history-determined order)
+        return list(self.order)
+
+    def place(self, iid, hint_id=None):
+        if hint_id is not None:
+            self.order.insert(self.order.index(hint_id), iid)
+            return
+        x = self.items[iid]["x"]
+        for pos, j in enumerate(self.order):
+            if self.items[j]["x"] > x:
+                self.order.insert(pos, iid)
+                return
+        self.order.append(iid)
 
     def refill_pairs(self, which):
         return [(self.items[i][which], i) for i in self.sorted_ids()]
@@ -764,6 +777,11 @@ class C19(SmallSuite):
         for _ in range(n_ops):
             u = rng.random()
             if u < 0.4:
+                if len(xs) > 2 and rng.random() < 0.06:
+                    # a coordinate that is already present ("arbitrary coordinates"): list order is then decided by the hint
+                    ops.append({"op": "insert", "x": rng.choice(xs[2:]), "g": key(), "l": key(), "hint": rng.random() < 0.7, "dup": True,
+                                "rg": key() if rng.random() < 0.7 else None, "rl": key() if rng.random() < 0.7 else None})
+                    continue
                 while True:
                     x = float("%.6g" % rng.random()) if rng.random() < 0.8 else rng.choice(xs[:-1]) + (rng.choice(xs[1:]) - rng.choice(xs[:-1])) * 0.5
                     if 0.0 < x < 1.0 and x not in xs:
@@ -897,6 +915,7 @@ class C19(SmallSuite):
             items[i] = it
             model.items[i] = {"x": x, "g": g, "l": l}
             return i, it
+        model.order = []
 
         def id_of(it):
             for i, v in items.items():
@@ -930,16 +949,21 @@ class C19(SmallSuite):
             if k == "insert_first":
                 li, l = mk(0.0, op["g"][0], op["l"][0])
                 ri, r = mk(1.0, op["g"][1], op["l"][1])
+                model.order = [li, ri]
                 sd.InsertFirstDataItem(l, r)
                 events.append("insert_first")
             elif k == "insert":
                 x = op["x"]
                 right_id = None
                 for j in model.sorted_ids():
-                    if model.items[j]["x"] > x:
+                    if model.items[j]["x"] > x or (op.get("dup") and op["hint"] and model.items[j]["x"] == x):
                         right_id = j
                         break
+                if right_id is None:
+                    continue
                 ni, it = mk(x, op["g"], op["l"])
+                model.place(ni, right_id if op["hint"] else None)
+                rep.probes["equal_coordinate_insertions"] += int(bool(op.get("dup")))
                 if op["hint"]:
                     # Method re-computes the right neighbour's characteristics before inserting
                     if op.get("rg") is not None:
